@@ -163,17 +163,17 @@ def roundTiles (positioning image : Rat) : Except Err (Int × Rat) := do
   let n := max 1 (roundHalfEven q)
   pure (n, positioning / (n : Rat))
 
-/-- `if repeat_x == 'round':` -/
+/-- `if repeat_x == 'round' and image_width:` (a zero-sized image skips the arithmetic). -/
 def roundX (repeatX repeatY : Repeat) (size : BgSize) (pw : Rat) (p : Placed) : Except Err Placed :=
-  if repeatX == .round then do
+  if repeatX == .round && p.iw != 0 then do
     let t ← roundTiles pw p.iw
     let ih := if repeatY != .round && size.autoAt true then p.ih * (t.2 / p.iw) else p.ih
     pure { p with iw := t.2, ih := ih, px := 0 }
   else pure p
 
-/-- `if repeat_y == 'round':` -/
+/-- `if repeat_y == 'round' and image_height:` -/
 def roundY (repeatX repeatY : Repeat) (size : BgSize) (ph : Rat) (p : Placed) : Except Err Placed :=
-  if repeatY == .round then do
+  if repeatY == .round && p.ih != 0 then do
     let t ← roundTiles ph p.ih
     let iw := if repeatX != .round && size.autoAt false then p.iw * (t.2 / p.ih) else p.iw
     pure { p with iw := iw, ih := t.2, py := 0 }
